@@ -8,7 +8,7 @@ Prints one line per property: ok / VIOLATION (with the finding lines) / ANALYSIS
 import os, subprocess, sys, tempfile, shutil
 from concurrent.futures import ThreadPoolExecutor
 
-PROPS = ['C%02d' % i for i in range(1, 21) if i != 6]
+PROPS = ['C%02d' % i for i in range(1, 21)]
 
 
 def sh(*a, **k):
